@@ -156,7 +156,7 @@ def fixOrigin (c : Cfg) (from_ tramp : BitVec 64) (trampSize : Nat) (jumpInstSiz
       let data :=
         if (if c.trackGrowth then n else fixed.length) < blockLen then      -- :55
           fixed ++ Gen.Amd64.jmpToOriginFunctionValue (tramp + BitVec.ofNat 64 fixed.length) (from_ + BitVec.ofNat 64 n)
-        else progBytes prog     -- :55 not taken: `fixOriginData` is still the RAW read of :44, `fixedData` is dropped (finding F27)
+        else fixed              -- whole function consumed: the relocated bytes, no jump back (F27 repaired)
       if trampSize < data.length then .error "err:fixed-bigger-than-trampoline"   -- :72
       else .ok data
 
